@@ -16,6 +16,8 @@ from dsim.pristine import Watchdog
 H1 = ("192.168.22.17", 3002)
 H2 = ("192.168.22.18", 3002)  # hard-coded destination of periodic_maintenance()
 PEERS = [("10.0.0.2", 3002), ("10.0.0.3", 3002), ("10.0.0.4", 40001)]
+# IPv6 peers as an AF_INET6 socket reports them: 4-tuples, link-local hosts carry their zone after '%'
+PEERS6 = [("fe80::1%eth0", 3002, 0, 2), ("fe80::1%eth1", 3002, 0, 3), ("2001:db8::2", 40001, 0, 0)]
 CLASSES = [
     "connect", "connect_opts", "close", "heartbeat", "reg", "offline", "rrs_other",
     "data_other", "ack_connect", "ack_close", "ack_data", "reject",
@@ -238,6 +240,7 @@ class C17(Check):
             for x in enabled:
                 rates[x] = f.random() * (0.05 if x in ("restart", "clock_jump", "transport") else 0.3)
         npeers = k.randrange(1, 4)
+        peers = PEERS6 if topo == "A" and k.random() < 0.15 else PEERS
         n = k.choice([1, 2, 3, 5, 8, 13, 21, 34, 55, 89, 144, 200]) if topo == "A" else k.choice([3, 8, 20, 40, 80])
         # class mix per run (swarm)
         classes = CLASSES + EXTRA_CLASSES
@@ -258,7 +261,7 @@ class C17(Check):
             cls = w.choices(classes, weights)[0]
             data, meta = build(cls, w, radios)
             op = {"kind": "deliver", "t": round(t, 6), "prio": sched.randrange(1000), "dst": w.choice(dsts),
-                  "src": list(PEERS[w.randrange(npeers)]), "data": data.hex(), "label": cls, "clean": True,
+                  "src": list(peers[w.randrange(npeers)]), "data": data.hex(), "label": cls, "clean": True,
                   "meta": meta, "f": []}
             if rates:
                 if f.random() < rates.get("clock_jump", 0):
